@@ -22,15 +22,199 @@ ENC = "codec:CRSEncoder"
 DEC = "codec:CRSDecoder"
 
 
-def thread_call(fn, method_path):
-    """The call that runs `method_path` (e.g. self.decoder.decode), either directly or through defer_to_thread;
-    returns (call, [argument ASTs of the zfec method])."""
+# ------------------------------------------------------------------ how an entry method reaches zfec
+# A function handed to one of these is run later (thread pool): position of the callable among the arguments.
+THREAD_RUNNERS = {"defer_to_thread": 0, "deferToThread": 0, "callInThread": 0, "deferToThreadPool": 2,
+                  "callInThreadWithCallback": 1, "run_in_executor": 1, "submit": 0}
+MUTATORS = ("append", "appendleft", "extend", "extendleft", "insert", "add", "update", "setdefault", "put", "put_nowait",
+            "push", "pop", "popleft", "popitem", "get_nowait", "remove", "discard", "clear", "sort", "reverse")
+ANY_ATTR = "self.*"
+
+
+class Route:
+    """One way an entry method performs the zfec call: `call` is the call in that method which does it (directly, by
+    handing it to the thread pool, or through helper methods / closures), `zargs` are the zfec arguments as ASTs over
+    the method's own scope (helper parameters replaced by what the method passes), `exprs` every expression of the
+    method whose value flows into them, `reads` the instance attributes read on the way: (path, function, exposed) -
+    exposed means the read happens after the call gave up the reactor turn (in the thread pool, or after an await)."""
+
+    def __init__(self, call, zargs, exprs, reads, hops, deferred):
+        self.call, self.zargs, self.exprs, self.reads, self.hops, self.deferred = call, zargs, exprs, reads, hops, deferred
+
+
+def _unpartial(e, args, kws):
+    while isinstance(e, ast.Call) and call_tail(e) == "partial" and e.args and not isinstance(e.args[0], ast.Starred):
+        args, kws, e = list(e.args[1:]) + list(args), list(e.keywords) + list(kws), e.args[0]
+    return e, args, kws
+
+
+def _invocations(fn):
+    """(call, callee expression, positional args, keywords, runs later?) for every call made by fn itself."""
     for c in calls_in_func(fn, None):
-        if call_name(c) == method_path:
-            return c, list(c.args)
-        if call_tail(c) == "defer_to_thread" and c.args and attr_path(c.args[0]) == method_path:
-            return c, list(c.args[1:])
-    raise AnchorVanished("%s: call of %s not found" % (short(fn), method_path))
+        pos = THREAD_RUNNERS.get(call_tail(c))
+        if pos is not None:
+            if len(c.args) > pos and not any(isinstance(a, ast.Starred) for a in c.args[:pos + 1]):
+                yield c, c.args[pos], list(c.args[pos + 1:]), list(c.keywords), True
+            continue
+        yield c, c.func, list(c.args), list(c.keywords), False
+
+
+def _callee_func(idx, fn, e):
+    if isinstance(e, ast.Lambda):
+        return idx.lambda_func(fn, e)
+    if isinstance(e, ast.Name):
+        f = fn
+        while f is not None:
+            if e.id in f.nested:
+                return f.nested[e.id]
+            f = f.parent
+    p = attr_path(e)
+    if p and p.startswith("self.") and p.count(".") == 1 and fn.cls is not None:
+        return fn.cls.lookup(p[5:])
+    if isinstance(e, (ast.Name, ast.Attribute)):
+        try:
+            r = idx.resolve_expr(fn.module, e)
+        except Exception:
+            r = None
+        if isinstance(r, FuncInfo):
+            return r
+    return None
+
+
+def _after_suspension(fn, n):
+    """Can the CFG node n run after fn has given up the reactor turn (an await / yield on some path before it)?"""
+    cfg = fn.cfg()
+    susp = [m for m in cfg.nodes if any(isinstance(x, (ast.Await, ast.Yield, ast.YieldFrom)) for e in node_exprs(m)
+                                        for x in own_nodes(e))]
+    seen, work = set(), [d for m in susp for (d, _l) in cfg.succ[m.id]]
+    while work:
+        i = work.pop()
+        if i in seen:
+            continue
+        seen.add(i)
+        work.extend(d for (d, _l) in cfg.succ[i])
+    return n.id in seen
+
+
+def _inline(sym, node, e):
+    """e with the locals of sym.fn replaced by their reaching definitions at node (a list built into a temporary too)."""
+    v = sym.expand(node, e)
+    if isinstance(v, ast.Name):
+        ds = sym.rd.get(node.id, {}).get(v.id, frozenset())
+        if len(ds) == 1 and C.PARAM_DEF not in ds:
+            v = sym.fnorm._def_value(sym.cfg.nodes[next(iter(ds))], v.id) or v
+    return v
+
+
+def _cone(fn, exprs):
+    """(instance attribute paths, bare names) the values of exprs may depend on inside fn."""
+    defs = def_exprs(fn)
+    deps = set()
+    for e in exprs:
+        deps |= depends_on(fn, e, defs=defs)
+    return {p for p in deps if p.startswith("self.")}, {p for p in deps if "." not in p}
+
+
+def routes(idx, fn, targets, depth=0, seen=()):
+    """Every Route from fn to a call of one of `targets` (attribute paths, in fn's scope, that denote the zfec method)."""
+    out = []
+    s = Sym(idx, fn)
+    for (c, callee, args, kws, deferred) in _invocations(fn):
+        try:
+            n = node_of(fn, c)
+        except AnalysisError:
+            continue
+        callee, args, kws = _unpartial(callee, args, kws)
+        callee, args, kws = _unpartial(s.expand(n, callee), args, kws)
+        after = _after_suspension(fn, n)
+        if attr_path(callee) in targets:
+            exprs = list(args) + [k.value for k in kws]
+            zargs = list(args) if not kws and not any(isinstance(a, ast.Starred) for a in args) else []
+            out.append(Route(c, zargs, exprs, [(p, fn, after) for p in sorted(_cone(fn, exprs)[0])], [fn], deferred))
+            continue
+        g = _callee_func(idx, fn, callee)
+        if g is None or g is fn or g in seen or depth >= 3:
+            continue
+        try:
+            binding = bind_call_args(g, ast.Call(func=callee, args=args, keywords=kws))
+        except AnalysisError:
+            continue
+        closure = g.parent is not None
+        same_self = g.cls is not None and g.cls is fn.cls and bool(g.params) and g.params[0] == "self"
+        tg = set(targets) if closure else ({t for t in targets if t.startswith("self.")} if same_self else set())
+        for prm, a in binding.items():
+            ap = attr_path(s.expand(n, a))
+            for t in targets:
+                if ap and (t == ap or t.startswith(ap + ".")):
+                    tg.add(prm + t[len(ap):])
+        if not tg:
+            continue
+        gs = Sym(idx, g)
+        for sub in routes(idx, g, tg, depth + 1, tuple(seen) + (fn,)):
+            gn = node_of(g, sub.call)
+            zargs = [subst_names(_inline(gs, gn, a), binding) for a in sub.zargs]
+            _attrs, names = _cone(g, sub.exprs)
+            exprs = zargs + [binding[p] for p in binding if p in names]
+            if closure:
+                exprs += [ast.Name(id=x, ctx=ast.Load()) for x in sorted(names) if x not in g.params]
+            reads = [(p, f, ex or deferred or after) for (p, f, ex) in sub.reads]
+            reads += [(p, fn, after) for p in sorted(_cone(fn, exprs)[0])]
+            out.append(Route(c, zargs, exprs, reads, [fn] + sub.hops, deferred or sub.deferred))
+    return out
+
+
+def the_route(idx, fn, method_path):
+    rs = routes(idx, fn, {method_path})
+    if len(rs) != 1:
+        raise AnchorVanished("%s: expected exactly one call of %s (directly, through the thread pool, a helper method or a "
+                             "closure), found %d" % (short(fn), method_path, len(rs)))
+    return rs[0]
+
+
+def per_call_funcs(idx, entry, extra=()):
+    """The entry method and every function it can run: its closures, and the methods of its class it mentions."""
+    out, work = [], [entry] + list(extra)
+    while work:
+        f = work.pop()
+        if f in out:
+            continue
+        out.append(f)
+        for x in func_own_nodes(f, into_lambda=True):
+            if isinstance(x, (ast.FunctionDef, ast.AsyncFunctionDef)) and x.name in f.nested:
+                work.append(f.nested[x.name])
+            p = attr_path(x) if isinstance(x, ast.Attribute) else None
+            if p and p.startswith("self.") and p.count(".") == 1 and f.cls is not None:
+                m = f.cls.lookup(p[5:])
+                if isinstance(m, FuncInfo):
+                    work.append(m)
+    return out
+
+
+def attr_writes(f):
+    """(instance attribute path, AST node) for every write fn makes to the instance: rebinding, item stores, deletes,
+    in-place mutation of a container kept on the instance, setattr / __dict__."""
+    out = []
+    for x in func_own_nodes(f, into_lambda=True):
+        if isinstance(x, ast.Attribute) and isinstance(x.ctx, (ast.Store, ast.Del)):
+            p = attr_path(x)
+            if p and p.startswith("self."):
+                out.append((p, x))
+        elif isinstance(x, ast.Subscript) and isinstance(x.ctx, (ast.Store, ast.Del)):
+            b = x.value
+            while isinstance(b, ast.Subscript):
+                b = b.value
+            p = attr_path(b)
+            if p and p.startswith("self."):
+                out.append((p, x))
+        elif isinstance(x, ast.Call):
+            if isinstance(x.func, ast.Attribute) and x.func.attr in MUTATORS:
+                p = attr_path(x.func.value)
+                if p and p.startswith("self."):
+                    out.append((p, x))
+            elif call_tail(x) in ("setattr", "delattr") and x.args and isinstance(x.args[0], ast.Name) and x.args[0].id == "self":
+                nm = x.args[1] if len(x.args) > 1 else None
+                out.append(("self." + nm.value if isinstance(nm, ast.Constant) and isinstance(nm.value, str) else ANY_ATTR, x))
+    return [(ANY_ATTR if p == "self.__dict__" or p.startswith("self.__dict__.") else p, x) for (p, x) in out]
 
 
 def order_preserving(e, param):
@@ -105,15 +289,15 @@ def run_decode(ctx, r):
     cfg = fn.cfg()
     fnorm = FlowNorm(fn)
     s = Sym(idx, fn)
-    c, zargs = thread_call(fn, "self.decoder.decode")
+    # what one call, taken alone, hands to zfec: helper parameters are replaced by what decode passes, attributes
+    # stored earlier in decode by the stored value (whether such an attribute may carry per-call data is C36.6)
+    sa = Sym(idx, fn, expand_attrs=True)
+    rt = the_route(idx, fn, "self.decoder.decode")
+    c, zargs = rt.call, rt.zargs
     n = node_of(fn, c)
     r.site(fn, c, "zfec decode(blocks, ids)")
-    ids = s.expand(n, zargs[1]) if len(zargs) == 2 else None
-    if isinstance(ids, ast.Name):      # a list built into a temporary
-        ds = s.rd.get(n.id, {}).get(ids.id, frozenset())
-        if len(ds) == 1 and C.PARAM_DEF not in ds:
-            ids = s.fnorm._def_value(cfg.nodes[next(iter(ds))], ids.id) or ids
-    ok = len(zargs) == 2 and nf(s.expand(n, zargs[0])) == ps[0] and order_preserving(ids, ps[1])
+    ids = _inline(sa, n, zargs[1]) if len(zargs) == 2 else None
+    ok = len(zargs) == 2 and nf(sa.expand(n, zargs[0])) == ps[0] and order_preserving(ids, ps[1])
     r.require(ok, fn, fn.loc(c), "zfec is given (%s): blocks and share numbers are not passed in the caller's order" % (
         ", ".join(src(fn, a) for a in zargs)))
     for want, what in ((("len(%s)" % ps[0], "len(%s)" % ps[1]), "as many share numbers as blocks"),
@@ -143,10 +327,12 @@ def run_encode(ctx, r):
     cfg = fn.cfg()
     fnorm = FlowNorm(fn)
     s = Sym(idx, fn)
-    c, zargs = thread_call(fn, "self.encoder.encode")
+    sa = Sym(idx, fn, expand_attrs=True)
+    rt = the_route(idx, fn, "self.encoder.encode")
+    c, zargs = rt.call, rt.zargs
     n = node_of(fn, c)
     r.site(fn, c, "zfec encode(pieces, ids)")
-    r.require(len(zargs) == 2 and nf(zargs[0]) == ps[0] and nf(zargs[1]) == ps[1], fn, fn.loc(c),
+    r.require(len(zargs) == 2 and nf(sa.expand(n, zargs[0])) == ps[0] and nf(sa.expand(n, zargs[1])) == ps[1], fn, fn.loc(c),
               "zfec encode is given (%s), not the pieces and the wanted share ids" % ", ".join(src(fn, a) for a in zargs))
     # every piece is checked against share_size before the call
     loops = [q for q in cfg.nodes if q.kind == "iter" and nf(q.ast.iter) == ps[0] and isinstance(q.ast.target, ast.Name)]
@@ -335,6 +521,44 @@ def run_callers(ctx, r):
         r.require(padded and has_assert, pe, pe.loc(pc), "pieces are not padded to / checked against %s.get_block_size()" % fecname)
 
 
+def run_shared_state(ctx, r):
+    """The codec objects are configured once (set_params) and then shared: the downloader keeps one decoder for all
+    full-size segments, Retrieve one _segment_decoder, the encoders one codec per upload.  encode()/decode() give up the
+    reactor turn while zfec runs in the CPU thread pool, so calls on one object overlap.  Whatever one call hands to
+    zfec must therefore travel in that call's own frame (arguments, locals, closure cells): an instance attribute that
+    encode/decode (or anything they run) writes, and that is read back after the turn was given up, belongs to the
+    latest call, not to this one."""
+    idx = ctx.idx
+    for clsq, meth, target, what in ((DEC, "decode", "self.decoder.decode", "blocks / share numbers"),
+                                     (ENC, "encode", "self.encoder.encode", "pieces / wanted share ids")):
+        fn = idx.func("%s.%s" % (clsq, meth))
+        rs = routes(idx, fn, {target})
+        if not rs:
+            raise AnchorVanished("%s: call of %s not found" % (short(fn), target))
+        funcs = per_call_funcs(idx, fn, [h for rt in rs for h in rt.hops])
+        writes = [(p, f, x) for f in funcs for (p, x) in attr_writes(f)]
+        r.site(fn, rs[0].call, "per-call inputs of %s reach zfec in the call's own frame (%d function(s) run per call, %d instance "
+               "write(s), %d instance read(s) feeding zfec)" % (meth, len(funcs), len(writes), sum(len(rt.reads) for rt in rs)))
+        if not any(rt.deferred for rt in rs) and not any(_after_suspension(fn, node_of(fn, rt.call)) for rt in rs):
+            continue        # zfec runs inside the caller's turn: calls cannot overlap
+        reported = set()
+        for rt in rs:
+            r.count(len(rt.reads) * max(1, len(writes)))
+            for (p, rf, exposed) in rt.reads:
+                if not exposed:
+                    continue
+                for (wp, wf, wx) in writes:
+                    if (wp == p or wp == ANY_ATTR) and (p, wf.qual) not in reported:
+                        reported.add((p, wf.qual))
+                        r.violation(fn, wf.loc(wx), "%s.%s hands its %s to zfec through the instance attribute %s: written by "
+                                    "every call (%s) and read back in %s after the call has given up the reactor turn%s; the "
+                                    "codec object is shared, so an overlapping %s() replaces it first and this call "
+                                    "%ss the other call's data" % (
+                                        short(fn).split(".")[0], meth, what, p, src(wf, wx) if not isinstance(wx, ast.Attribute)
+                                        else "%s = ... in %s" % (p, short(wf)), short(rf),
+                                        " (thread pool)" if rt.deferred else "", meth, meth))
+
+
 def run(ctx: Context):
     with ctx.rule("C36.1", "R6", "zfec.Encoder / zfec.Decoder receive (required_shares, max_shares) in that order; both "
                   "set_params share one signature", expected=2) as r:
@@ -351,3 +575,6 @@ def run(ctx: Context):
     with ctx.rule("C36.5", "R6/R9", "callers: block and share-number lists are built pairwise and cut alike; a segment is cut "
                   "into k pieces of the codec's block size", expected=5) as r:
         run_callers(ctx, r)
+    with ctx.rule("C36.6", "R9", "what one encode()/decode() call hands to zfec travels in that call's frame, never through "
+                  "instance attributes written per call and read back after the reactor turn was given up", expected=2) as r:
+        run_shared_state(ctx, r)
